@@ -53,3 +53,46 @@ Definition early_rename_trace : list op :=
 (* what a reader sees at FINAL after each prefix of t *)
 Definition views (t : list op) (s0 : fs) : list (option bytes) :=
   map (fun k => content_at (run (firstn k t) s0) FINAL) (seq 0 (S (length t))).
+
+(* ------------------------------------------------------------------ a producer with a user-space buffer ------ *)
+(* What a kill loses is the user-space buffer of the file object; the syscall trace is all the file system sees.
+   bw_ops: the write(2) calls a buffered file object of capacity B issues on descriptor f while the program writes
+   `chunks` into it, starting with `buf` pending (CPython Modules/_io/bufferedio.c _io_BufferedWriter_write_impl,
+   as used by open(temp_path, "wb") in network/transport.py:69-72 and by the text layer of status.py:120-121):
+   data that still fits stays in user space; otherwise the pending bytes are flushed first, then data of at least
+   B bytes is written through and shorter data becomes the new pending buffer.
+   Result: (syscalls issued, bytes still pending in user space). *)
+Fixpoint bw_ops (B : nat) (f : fdnum) (buf : bytes) (chunks : list bytes) : list op * bytes :=
+  match chunks with
+  | [] => ([], buf)
+  | c :: cs =>
+      if Nat.leb (length buf + length c) B then bw_ops B f (buf ++ c) cs
+      else
+        let pre := match buf with [] => [] | _ => [Write f buf true] end in
+        if Nat.leb B (length c)
+        then (pre ++ Write f c true :: fst (bw_ops B f [] cs), snd (bw_ops B f [] cs))
+        else (pre ++ fst (bw_ops B f c cs), snd (bw_ops B f c cs))
+  end.
+
+(* close() of the file object: flush what is pending, then close(2) *)
+Definition flush_ops (f : fdnum) (buf : bytes) : list op :=
+  match buf with [] => [] | _ => [Write f buf true] end.
+
+(* bytes handed to write(2) by a list of ops *)
+Fixpoint written (t : list op) : bytes :=
+  match t with
+  | Write _ bs true :: t' => bs ++ written t'
+  | _ :: t' => written t'
+  | [] => []
+  end.
+
+(* transport.py:65-73 + :124-125 as it is: open temp, write the chunks, leave the with-block (flush + close), rename *)
+Definition producer_ok (B : nat) (f : fdnum) (chunks : list bytes) : list op :=
+  Openat TEMP fl_w f true :: fst (bw_ops B f [] chunks) ++ flush_ops f (snd (bw_ops B f [] chunks)) ++
+  [Close f true; Rename TEMP FINAL true].
+
+(* the regression of seeded/C20-3: the rename sits inside the with-block, before flush + close *)
+Definition early_prefix (B : nat) (f : fdnum) (chunks : list bytes) : list op :=
+  Openat TEMP fl_w f true :: fst (bw_ops B f [] chunks) ++ [Rename TEMP FINAL true].
+Definition producer_early (B : nat) (f : fdnum) (chunks : list bytes) : list op :=
+  early_prefix B f chunks ++ flush_ops f (snd (bw_ops B f [] chunks)) ++ [Close f true].
